@@ -156,6 +156,25 @@ class Tr:
             if isinstance(op, ast.GtE):
                 return f"(a_leb ar {r} {l})", "B"
             _fail(node)
+        if isinstance(node, ast.BoolOp):
+            # `and` / `or` of boolean sub-expressions; a division inside would be evaluated
+            # conditionally (short circuit): not supported
+            inner = []
+            parts = [self.expr(v, env, inner) for v in node.values]
+            if inner:
+                _fail(node, "(division inside and/or)")
+            if any(ty != "B" for _, ty in parts):
+                _fail(node, "(non-boolean operand of and/or)")
+            op = "andb" if isinstance(node.op, ast.And) else "orb"
+            out = parts[-1][0]
+            for t, _ in reversed(parts[:-1]):
+                out = f"({op} {t} {out})"
+            return out, "B"
+        if isinstance(node, ast.UnaryOp) and isinstance(node.op, ast.Not):
+            t, ty = self.expr(node.operand, env, guards)
+            if ty != "B":
+                _fail(node)
+            return f"(negb {t})", "B"
         _fail(node)
 
     def with_guards(self, guards, body):
@@ -488,13 +507,13 @@ def extract_permuted_tags(tree):
     return sorted(set(tags))
 
 
-def gen():
-    cfg_tree = ast.parse(CFG_SRC.read_text())
+GEN_DISPATCH = common.COQ / "Gen" / "Dispatch.v"
+
+
+def gen_dispatch():
+    """Gen/Dispatch.v: create_impl and the DMRG constructor guard (shared with C04)."""
     impl_tree = ast.parse(IMPL_SRC.read_text())
-    cls = _find_class(cfg_tree, "MPSConfig")
-    check_monkeypatch(cls)
-    wl = extract_whitelist(cls)
-    text = f"""(* GENERATED by tools/props/c33.py from emu_mps/mps_config.py and emu_mps/mps_backend_impl.py; do not edit. *)
+    text = f"""(* GENERATED by tools/props/c33.py from emu_mps/mps_backend_impl.py (create_impl, DMRGBackendImpl.__init__); do not edit. *)
 From Coq Require Import ZArith Bool List String.
 From EV Require Import Base.Arith.
 Import ListNotations.
@@ -503,6 +522,26 @@ Open Scope string_scope.
 (* exception classes are encoded as Err (class * 100000 + source line) *)
 Definition exc_AssertionError : Z := 1. Definition exc_ZeroDivisionError : Z := 2.
 Definition exc_NotImplementedError : Z := 3. Definition exc_ValueError : Z := 4.
+
+Inductive impl_kind := ImplPlain | ImplNoisy | ImplDMRG.
+{extract_create_impl(impl_tree)}
+{extract_dmrg_guard(impl_tree)}"""
+    return [(GEN_DISPATCH, text)]
+
+
+def gen_guards():
+    """Gen/Guards.v: MPSConfig.__init__, the whitelist and the tags permute_results un-permutes."""
+    cfg_tree = ast.parse(CFG_SRC.read_text())
+    impl_tree = ast.parse(IMPL_SRC.read_text())
+    cls = _find_class(cfg_tree, "MPSConfig")
+    check_monkeypatch(cls)
+    wl = extract_whitelist(cls)
+    text = f"""(* GENERATED by tools/props/c33.py from emu_mps/mps_config.py and emu_mps/mps_backend_impl.py; do not edit. *)
+From Coq Require Import ZArith Bool List String.
+From EV Require Import Base.Arith.
+From EV Require Export Gen.Dispatch.
+Import ListNotations.
+Open Scope string_scope.
 
 Definition allowed_permutable_obs : list string := {_coq_strlist(wl)}.
 Definition permuted_result_tags : list string := {_coq_strlist(extract_permuted_tags(impl_tree))}.
@@ -513,9 +552,6 @@ Definition check_permutable_observables (tags : list string) : bool :=
   let not_allowed := filter (fun t => negb (existsb (String.eqb t) allowed_permutable_obs)) actual_obs in
   match not_allowed with [] => true | _ => false end.
 
-Inductive impl_kind := ImplPlain | ImplNoisy | ImplDMRG.
-{extract_create_impl(impl_tree)}
-{extract_dmrg_guard(impl_tree)}
 Section Guards.
 Variable A : Type.
 Variable ar : Arith A.
@@ -526,6 +562,10 @@ End Guards.
 Arguments mps_config_init {{A}} ar.
 """
     return [(GEN, text)]
+
+
+def gen():
+    return gen_dispatch() + gen_guards()
 
 
 # ------------------------------------------------------------------------------------------
@@ -566,6 +606,11 @@ HEADER = """From Coq Require Import ZArith List String PrimFloat.
 Import ListNotations.
 From EV Require Import Base.Arith Gen.Guards Model.ConfigGuards.
 Open Scope string_scope. Open Scope float_scope."""
+
+HEADER_D = """From Coq Require Import ZArith List String.
+Import ListNotations.
+From EV Require Import Base.Arith Gen.Dispatch Model.DispatchModel.
+Open Scope string_scope."""
 
 OBS_KINDS = ["bitstrings", "correlation_matrix", "energy", "energy_second_moment", "energy_variance",
              "occupation", "state", "expectation", "fidelity", "entanglement_entropy", "statistics"]
@@ -625,19 +670,53 @@ def make_observable(kind: str):
     return o
 
 
+SOLVERS = [None, "tdvp-enum", "dmrg-enum", "tdvp-str", "dmrg-str"]
+
+
+def _solver_kw(spelling):
+    from emu_mps.solver import Solver
+    if spelling is None:
+        return {}
+    name, how = spelling.split("-")
+    member = Solver.TDVP if name == "tdvp" else Solver.DMRG
+    return {"solver": member if how == "enum" else member.value}
+
+
 def impl_config(case):
-    """Construct the REAL MPSConfig; returns outcome class and the effective safeguarded options."""
+    """Construct the REAL MPSConfig (directly, and re-created through the abstract representation and
+    through with_changes); returns outcome class and the effective safeguarded options of each."""
     from emu_mps import MPSConfig
 
     obs = [make_observable(k) for k in case["obs"]]
     tags = [o._base_tag for o in obs]
+    skw = _solver_kw(case.get("solver"))
     try:
         cfg = MPSConfig(precision=case["p"], extra_krylov_tolerance=case["e"], autosave_dt=case["a"],
-                        optimize_qubit_ordering=case["o"], observables=obs, log_level=logging.CRITICAL)
+                        optimize_qubit_ordering=case["o"], observables=obs, log_level=logging.CRITICAL, **skw)
     except (AssertionError, ZeroDivisionError) as ex:
         return {"outcome": type(ex).__name__, "tags": tags}
-    return {"outcome": "ok", "extra": float(cfg.extra_krylov_tolerance), "opt": cfg.optimize_qubit_ordering,
-            "tags": tags, "cfg_tags": [o._base_tag for o in cfg.observables]}
+
+    def view(c):
+        return {"extra": float(c.extra_krylov_tolerance), "opt": bool(c.optimize_qubit_ordering),
+                "precision": float(c.precision), "solver": str(getattr(c.solver, "value", c.solver)),
+                "cfg_tags": [o._base_tag for o in c.observables]}
+
+    r = {"outcome": "ok", "tags": tags, **view(cfg), "variants": {}}
+    if case.get("variants", True):
+        try:  # abstract-repr round trip (what a remote backend / a saved job does)
+            r["variants"]["abstract-repr"] = view(MPSConfig.from_abstract_repr(cfg.to_abstract_repr()))
+        except (AssertionError, ZeroDivisionError) as ex:
+            r["variants"]["abstract-repr"] = {"raised": type(ex).__name__}
+        except Exception:  # observable / value not serialisable: variant not available
+            pass
+        try:  # a default-precision config of the same solver, then with_changes to the requested values
+            base = MPSConfig(autosave_dt=case["a"], optimize_qubit_ordering=case["o"], observables=obs,
+                             log_level=logging.CRITICAL, **skw)
+            r["variants"]["with_changes"] = view(base.with_changes(precision=case["p"],
+                                                                   extra_krylov_tolerance=case["e"]))
+        except (AssertionError, ZeroDivisionError) as ex:
+            r["variants"]["with_changes"] = {"raised": type(ex).__name__}
+    return r
 
 
 def model_config_expr(case, tags):
@@ -661,37 +740,51 @@ def _i64(x: float) -> int:
 
 
 def config_oracle(ctx, case, r, obs_stats):
-    """What C33 demands of the real constructor (independent of the model)."""
+    """What C33 demands of the real constructor, checked directly on the attributes of every configuration
+    object obtained for the case (independent of the model and of the extractor)."""
     p, e, a = float(case["p"]), float(case["e"]), float(case["a"])
+    how = f"solver={case.get('solver') or 'default'}"
     if not (a > 10):  # includes nan
         if r["outcome"] != "AssertionError":
-            ctx.violation(f"autosave_dt={a!r} (<= 10 s) was not rejected",
+            ctx.violation(f"autosave_dt={a!r} (<= 10 s) was not rejected ({how})",
                           {"case": case, "impl": r, "finding_key": "autosave-not-rejected"})
         return
     if r["outcome"] == "AssertionError":
-        ctx.violation(f"autosave_dt={a!r} (> 10 s) was rejected",
+        ctx.violation(f"autosave_dt={a!r} (> 10 s) was rejected ({how})",
                       {"case": case, "impl": r, "finding_key": "autosave-wrongly-rejected"})
         return
-    if r["outcome"] == "ok":
-        want = bool(case["o"]) and all(t in SPEC_PERMUTABLE for t in r["tags"])
-        if r["opt"] != want:
-            ctx.violation(f"optimize_qubit_ordering is {r['opt']} but requested={case['o']} with observables "
-                          f"{r['tags']} requires {want}",
-                          {"case": case, "impl": r, "finding_key": "reordering-guard"})
-        if r["cfg_tags"] != r["tags"]:
-            ctx.violation("monkeypatch_observables changed the observables' base tags",
-                          {"case": case, "impl": r, "finding_key": "monkeypatch-tags"})
-    if 1e-300 <= p <= 1e290 and math.isfinite(e):
-        if r["outcome"] != "ok":
-            ctx.violation(f"valid precision={p!r} extra={e!r} raised {r['outcome']}",
+    in_domain = 1e-300 <= p <= 1e290 and math.isfinite(e)
+    if r["outcome"] != "ok":
+        if in_domain:
+            ctx.violation(f"valid precision={p!r} extra={e!r} raised {r['outcome']} ({how})",
                           {"case": case, "impl": r, "finding_key": "floor-raises"})
-            return
+        return
+    views = [("direct", r)] + list(r.get("variants", {}).items())
+    for via, v in views:
+        if "raised" in v:
+            if in_domain:
+                ctx.violation(f"{via}: valid precision={p!r} extra={e!r} raised {v['raised']} ({how})",
+                              {"case": case, "impl": r, "via": via, "finding_key": "floor-raises"})
+            continue
+        want = bool(case["o"]) and all(t in SPEC_PERMUTABLE for t in r["tags"])
+        if v["opt"] != want:
+            ctx.violation(f"{via}: optimize_qubit_ordering is {v['opt']} but requested={case['o']} with observables "
+                          f"{r['tags']} requires {want}",
+                          {"case": case, "impl": r, "via": via, "finding_key": "reordering-guard"})
+        if v["cfg_tags"] != r["tags"]:
+            ctx.violation(f"{via}: the observables' base tags changed",
+                          {"case": case, "impl": r, "via": via, "finding_key": "monkeypatch-tags"})
+        if not in_domain:
+            continue
         tol = 1e-12
-        prod = p * r["extra"]
-        if p * e >= tol:
-            if r["extra"].hex() != e.hex():
-                ctx.violation("extra_krylov_tolerance changed although precision*extra >= 1e-12",
-                              {"case": case, "impl": r, "finding_key": "floor-changes-valid"})
+        if v["precision"].hex() != p.hex():
+            ctx.violation(f"{via}: precision changed from {p!r} to {v['precision']!r}",
+                          {"case": case, "impl": r, "via": via, "finding_key": "precision-changed"})
+            continue
+        prod = p * v["extra"]
+        if p * e >= tol and v["extra"].hex() != e.hex():
+            ctx.violation(f"{via}: extra_krylov_tolerance changed although precision*extra >= 1e-12 ({how})",
+                          {"case": case, "impl": r, "via": via, "finding_key": "floor-changes-valid"})
         if prod >= tol:
             obs_stats["floor_reached"] += 1
         else:
@@ -699,10 +792,11 @@ def config_oracle(ctx, case, r, obs_stats):
             if short <= 1:
                 obs_stats["floor_1ulp_short"] += 1
                 obs_stats.setdefault("floor_1ulp_witness", {"precision": p, "extra": e,
-                                                            "effective_extra": r["extra"], "product": prod})
+                                                            "effective_extra": v["extra"], "product": prod})
             else:
-                ctx.violation(f"precision*extra_krylov_tolerance = {prod!r} is {short} ulp below 1e-12",
-                              {"case": case, "impl": r, "finding_key": "floor-shortfall"})
+                ctx.violation(f"{via}, {how}: effective precision*extra_krylov_tolerance = {p!r}*{v['extra']!r} = "
+                              f"{prod!r} < 1e-12: the Krylov tolerance floor was not applied",
+                              {"case": case, "impl": r, "via": via, "finding_key": "krylov-floor-not-applied"})
 
 
 # ---- generators -----------------------------------------------------------------------------
@@ -737,7 +831,19 @@ def gen_float_case(rng, kind):
         a = rng.choice([float("inf"), 11.0, rng.uniform(0, 30)])
     nobs = rng.choice([0, 0, 1, 2, 3])
     obs = rng.sample(OBS_KINDS, nobs)
-    return {"kind": kind, "p": p, "e": e, "a": a, "o": rng.random() < 0.7, "obs": obs}
+    return {"kind": kind, "p": p, "e": e, "a": a, "o": rng.random() < 0.7, "obs": obs,
+            "solver": rng.choice(SOLVERS), "variants": rng.random() < 0.5}
+
+
+def solver_grid_cases():
+    """Every solver spelling x precision x (extra far below / just below / at / above the floor)."""
+    out = []
+    for sv in SOLVERS:
+        for p in (1e-12, 1e-9, 1e-5, 1e-3, 0.5):
+            for e in (0.0, 1e-30, _nextafter(1e-12 / p, -2), 1e-12 / p, _nextafter(1e-12 / p, 2), 1e-3, 1.0):
+                out.append({"kind": "solver-grid", "p": p, "e": e, "a": float("inf"), "o": True, "obs": ["occupation"],
+                            "solver": sv, "variants": True})
+    return out
 
 
 def subset_cases(ctx):
@@ -747,13 +853,15 @@ def subset_cases(ctx):
         obs = [k for i, k in enumerate(OBS_KINDS) if mask >> i & 1]
         flags = [True, False] if (ctx.thorough() or mask % 8 == 0) else [True]
         for o in flags:
-            out.append({"kind": "subset", "p": 1e-5, "e": 1e-3, "a": float("inf"), "o": o, "obs": obs})
+            out.append({"kind": "subset", "p": 1e-5, "e": 1e-3, "a": float("inf"), "o": o, "obs": obs,
+                        "solver": SOLVERS[mask % len(SOLVERS)], "variants": mask % 16 == 0})
     extra = [["occupation+x"], ["occupation", "occupation+x"], ["fidelity+a", "energy"], ["energy+e2", "bitstrings+b"],
              ["custom:my_observable"], ["custom:energy_x"], ["custom:Occupation"], ["custom:occupation "],
              ["custom:", "energy"], ["state+s", "occupation"], ["custom:statistics2", "statistics"]]
     for obs in extra:
         for o in (True, False):
-            out.append({"kind": "subset-extra", "p": 1e-5, "e": 1e-3, "a": float("inf"), "o": o, "obs": obs})
+            out.append({"kind": "subset-extra", "p": 1e-5, "e": 1e-3, "a": float("inf"), "o": o, "obs": obs,
+                        "solver": None, "variants": False})
     return out
 
 
@@ -818,7 +926,9 @@ def impl_dispatch(case, seq):
         except Exception as ex:  # pulser refuses the combination: nothing to check
             return {"stage": "noise-model", "outcome": type(ex).__name__}
         cfg = MPSConfig(observables=[Occupation(evaluation_times=[1.0])], noise_model=nm,
-                        solver=Solver.DMRG if case["dmrg"] else Solver.TDVP, dt=10, optimize_qubit_ordering=False,
+                        solver=((Solver.DMRG if case["dmrg"] else Solver.TDVP).value if case.get("solver_str")
+                                else (Solver.DMRG if case["dmrg"] else Solver.TDVP)),
+                        dt=10, optimize_qubit_ordering=False,
                         log_level=logging.CRITICAL, **({"n_trajectories": 1} if case.get("ntraj") else {}))
         try:
             data = next(iter(PulserData(sequence=seq, config=cfg, dt=cfg.dt).get_sequences()))
@@ -869,16 +979,25 @@ def run(ctx):
     warnings.simplefilter("ignore")
     T0 = time.time()
 
-    # ---- translator + proofs
-    gen_ok = True
-    try:
-        for path, text in gen():
-            common.write_if_changed(path, text)
-        ctx.obligation("translate:mps_config.py+mps_backend_impl.py->Gen/Guards.v", True, kind="translator")
-    except (Unsupported, SyntaxError, OSError) as ex:
-        ctx.obligation("translate:mps_config.py+mps_backend_impl.py->Gen/Guards.v", False, str(ex), kind="translator")
-        gen_ok = False
-    model_ok = False
+    # ---- translators (two independent files) + proofs; the oracles below run whatever happens here
+    def _gen(name, fn):
+        try:
+            for path, text in fn():
+                common.write_if_changed(path, text)
+            ctx.obligation(name, True, kind="translator")
+            return True
+        except (Unsupported, SyntaxError, OSError) as ex:
+            ctx.obligation(name, False, str(ex), kind="translator")
+            return False
+
+    disp_ok = _gen("translate:mps_backend_impl.py(create_impl,DMRGBackendImpl)->Gen/Dispatch.v", gen_dispatch)
+    gen_ok = disp_ok and _gen("translate:mps_config.py+permute_results->Gen/Guards.v", gen_guards)
+    model_ok = dmodel_ok = False
+    if disp_ok:
+        rc, out = common.coq_make(["Model/DispatchModel.vo"])
+        dmodel_ok = rc == 0
+        if not dmodel_ok:
+            ctx.obligation("build:Model/DispatchModel.vo", False, out, kind="build")
     if gen_ok:
         rc, out = common.coq_make(["Model/ConfigGuards.vo"])
         model_ok = rc == 0
@@ -893,11 +1012,15 @@ def run(ctx):
                 "forall has_lindblad noise_types, noise_types <> [] -> "
                 "err_class (mps_select has_lindblad true noise_types) = Some exc_NotImplementedError",
                 "C33_dmrg_refuses_noise_if_dispatched (eq_refl : dmrg_dispatch_ok = true)")
+    else:
+        for n in common.theorems_in(common.COQ / "Properties" / "C33.v"):
+            ctx.obligation(n, False, "not checked: the model could not be regenerated from the source")
 
     ctx.log(f"proof stage {time.time() - T0:.1f}s")
     # ---- constructor cases on the real code
     corpus = corpus_cases()
     cases = [c for c in corpus if c.get("what") == "config"]
+    cases += solver_grid_cases()
     cases += subset_cases(ctx)
     for kind, nq, nt in (("straddle", 500, 6000), ("grid", 400, 4000), ("autosave", 200, 1500), ("random", 300, 4000)):
         cases += [gen_float_case(ctx.rng, kind) for _ in range(ctx.n(nq, nt))]
@@ -919,7 +1042,7 @@ def run(ctx):
         subsets = singles + [sorted(ctx.rng.sample(NOISE_KEYS, ctx.rng.randint(2, 6))) for _ in range(40)]
     for s in subsets:
         for dm in (False, True):
-            dcases.append({"what": "dispatch", "noise": s, "dmrg": dm})
+            dcases.append({"what": "dispatch", "noise": s, "dmrg": dm, "solver_str": len(dcases) % 3 == 0})
     seq = small_sequence()
     dimpl = []
     for c in dcases:
@@ -929,54 +1052,58 @@ def run(ctx):
     _restore_logging()
 
     ctx.log(f"dispatch cases {time.time() - T0:.1f}s")
-    # ---- correspondence (bit-exact / exact)
+    # ---- correspondence (bit-exact / exact); each part needs only its own generated file
+    B = 16
+    hist = {}
     corr_ok, detail = model_ok, "" if model_ok else "model did not build"
-    dcorr_ok, ddetail = model_ok, "" if model_ok else "model did not build"
     if model_ok:
         try:
             ev = common.CoqEval("C33", HEADER)
-            B = 16
             for i in range(0, len(cases), B):
                 ev.add("[" + "; ".join(model_config_expr(c, r["tags"]) for c, r in
                                        zip(cases[i:i + B], impl[i:i + B])) + "]")
-            live = [(c, r) for c, r in zip(dcases, dimpl) if r["stage"] == "create_impl"]
-            for i in range(0, len(live), B):
-                ev.add("[" + "; ".join(
-                    f"mps_select {'true' if r['has_lindblad'] else 'false'} {'true' if c['dmrg'] else 'false'} "
-                    f"{_coq_strlist(r['noise_types'])}" for c, r in live[i:i + B]) + "]")
-            outs = [_NEGZERO.sub("-0x0p+0", o) for o in ev.run()]
-            nb = (len(cases) + B - 1) // B
-            mvals = [v for o in outs[:nb] for v in parse(o)]
-            dvals = [v for o in outs[nb:] for v in parse(o)]
-            hist = {}
+            mvals = [v for o in ev.run() for v in parse(_NEGZERO.sub("-0x0p+0", o))]
             for c, r, v in zip(cases, impl, mvals):
                 m = decode_res(v)
                 i = {"outcome": r["outcome"]}
                 if r["outcome"] == "ok":
                     i.update(extra=bits(r["extra"]), opt=r["opt"])
-                nontrivial = r["outcome"] != "ok" or r["extra"].hex() != float(c["e"]).hex() or bool(c["obs"])
-                ctx.count_case(c, nontrivial)
-                key = f"{c['kind']}/{r['outcome']}"
-                hist[key] = hist.get(key, 0) + 1
                 if m != i and corr_ok:
                     corr_ok, detail = False, f"case={c} impl={i} model={m}"
                     ctx.extra["first_disagreement"] = {"case": c, "impl": i, "model": m}
+        except (common.CoqEvalError, ValueError, KeyError, TypeError) as ex:
+            corr_ok, detail = False, str(ex)
+    for c, r in zip(cases, impl):
+        nontrivial = r["outcome"] != "ok" or r["extra"].hex() != float(c["e"]).hex() or bool(c["obs"])
+        ctx.count_case(c, nontrivial)
+        key = f"{c['kind']}/{r['outcome']}"
+        hist[key] = hist.get(key, 0) + 1
+    live = [(c, r) for c, r in zip(dcases, dimpl) if r["stage"] == "create_impl"]
+    dcorr_ok, ddetail = dmodel_ok, "" if dmodel_ok else "model did not build"
+    if dmodel_ok:
+        try:
+            ev = common.CoqEval("C33d", HEADER_D)
+            for i in range(0, len(live), B):
+                ev.add("[" + "; ".join(
+                    f"mps_select {'true' if r['has_lindblad'] else 'false'} {'true' if c['dmrg'] else 'false'} "
+                    f"{_coq_strlist(r['noise_types'])}" for c, r in live[i:i + B]) + "]")
+            dvals = [v for o in ev.run() for v in parse(o)]
             for (c, r), v in zip(live, dvals):
                 if isinstance(v, tuple) and v[0] == "Ok":
                     m = KIND_INV[getattr(v[1], "name", v[1])]
                 else:
                     m = EXC_INV.get(v[1] // 100000, str(v))
-                ctx.count_case(c | {"noise_types": r["noise_types"]}, bool(r["noise_types"]))
-                key = f"dispatch/{'dmrg' if c['dmrg'] else 'tdvp'}/{r['outcome']}"
-                hist[key] = hist.get(key, 0) + 1
                 if m != r["outcome"] and dcorr_ok:
                     dcorr_ok, ddetail = False, f"case={c} impl={r} model={m}"
-            skipped = [r for r in dimpl if r["stage"] != "create_impl"]
-            hist["dispatch/not-buildable-in-pulser-or-rejected-before-dispatch"] = len(skipped)
-            ctx.extra["input_distribution"] = dict(sorted(hist.items()))
         except (common.CoqEvalError, ValueError, KeyError, TypeError) as ex:
-            corr_ok = dcorr_ok = False
-            detail = ddetail = str(ex)
+            dcorr_ok, ddetail = False, str(ex)
+    for c, r in live:
+        ctx.count_case(c | {"noise_types": r["noise_types"]}, bool(r["noise_types"]))
+        key = f"dispatch/{'dmrg' if c['dmrg'] else 'tdvp'}/{r['outcome']}"
+        hist[key] = hist.get(key, 0) + 1
+    hist["dispatch/not-buildable-in-pulser-or-rejected-before-dispatch"] = sum(
+        1 for r in dimpl if r["stage"] != "create_impl")
+    ctx.extra["input_distribution"] = dict(sorted(hist.items()))
     ctx.obligation("correspondence:Gen.Guards.mps_config_init@binary64==MPSConfig(...) (outcome class, bits of "
                    "extra_krylov_tolerance, reordering flag)", corr_ok, detail, kind="correspondence")
     ctx.obligation("correspondence:Model.mps_select==create_impl(PulserData(...)) (class or exception)",
@@ -984,7 +1111,8 @@ def run(ctx):
     ctx.extra["binary64_floor_observation"] = obs_stats | {
         "note": "in binary64 precision*(1e-12/precision) may round to the float just below 1e-12; a shortfall of "
                 "<= 1 ulp satisfies the safeguard, which is specified (and proved) in real arithmetic"}
-    ctx.rule = ("all 2048 subsets of the 11 observable kinds (+ suffixed/custom tags), float grids for "
+    ctx.rule = ("all 2048 subsets of the 11 observable kinds (+ suffixed/custom tags), every solver spelling (default, enum, "
+                "string) x direct / abstract-repr round trip / with_changes construction, float grids for "
                 "precision x extra (subnormal..huge, products within 3 ulp of 1e-12), autosave_dt around 10 "
                 "(nextafter, nan, inf), noise-type subsets x {TDVP, DMRG}; non-trivial when the constructor "
                 "raised, changed extra_krylov_tolerance or received observables / a noisy model")
